@@ -883,3 +883,104 @@ Proof.
   - apply IH. lia.
   - f_equal. apply IH. lia.
 Qed.
+
+(* ================================================================================== *)
+(* All outcomes, not only successful runs.                                            *)
+(* ================================================================================== *)
+
+(* no detach of an observer that is not attached (Python: list.remove raises ValueError) *)
+Fixpoint detach_ok (obs : list nat) (cs : list apicall) : Prop :=
+  match cs with
+  | [] => True
+  | c :: r =>
+    match c with ADetach o => mem o obs = true | _ => True end /\ detach_ok (next_obs obs c) r
+  end.
+
+Lemma mem_remove_first : forall o obs,
+    mem o obs = true -> exists l, remove_first (Nat.eqb o) obs = Some l.
+Proof.
+  intros o obs. induction obs as [|x obs IH]; cbn; [discriminate|].
+  destruct (Nat.eqb o x); [intros _; eexists; reflexivity|]. cbn. intro H.
+  destruct (IH H) as [l ->]. eexists; reflexivity.
+Qed.
+
+Section Total.
+  Variable orc : oracle.
+  Variable imm : nat -> bool.
+  Variable body : list xstmt.
+
+  Lemma obs_erased_succeed : forall f cs s,
+      detach_ok (g_obs (sc_g s)) cs -> erased_succeed orc imm body is_obs_call f s cs.
+  Proof.
+    intros f cs. induction cs as [|c cs IH]; intros s H; [exact I|]. destruct H as [H1 H2].
+    cbn [erased_succeed].
+    destruct (api_call orc imm f body s c) as [[b s']| | |] eqn:E.
+    - apply IH. rewrite (proj2 (proj2 (api_shape orc imm body f s c b s' E))). exact H2.
+    - destruct c as [|id| |kk l|o|o]; try reflexivity; exfalso; cbn [api_call] in E; [discriminate|].
+      destruct (mem_remove_first _ _ H1) as [l Hl].
+      change (g_obs (clear_log (sc_g s))) with (g_obs (sc_g s)) in E. rewrite Hl in E. discriminate.
+    - destruct c as [|id| |kk l|o|o]; try reflexivity; exfalso; cbn [api_call] in E; [discriminate|].
+      destruct (mem_remove_first _ _ H1) as [l Hl].
+      change (g_obs (clear_log (sc_g s))) with (g_obs (sc_g s)) in E. rewrite Hl in E. discriminate.
+    - destruct c as [|id| |kk l|o|o]; try reflexivity; exfalso; cbn [api_call] in E; [discriminate|].
+      destruct (mem_remove_first _ _ H1) as [l Hl].
+      change (g_obs (clear_log (sc_g s))) with (g_obs (sc_g s)) in E. rewrite Hl in E. discriminate.
+  Qed.
+
+  (* with valid detaches, the run without observers ends exactly like the run with them:
+     success with the erased trace, or the same failure *)
+  Theorem observers_do_not_influence_total : forall f cs,
+      detach_ok [] cs ->
+      run_script orc imm f body sched0 (erase_obs_calls cs)
+      = res_map (erase_obs_recs cs) (run_script orc imm f body sched0 cs).
+  Proof.
+    intros f cs H.
+    assert (X : run_script orc imm f body sched0 (erase_obs_calls cs)
+                = res_map (erase_recs not_obs is_obs_call cs) (run_script orc imm f body sched0 cs)).
+    { apply (erase_sim_total not_obs eq any_obs orc imm body is_obs_call
+                             (obs_erased_step orc imm body) (obs_kept_step orc imm body)
+                             no_observers (obs_clean_step orc imm body) f cs sched0 sched0).
+      - split; [reflexivity|]. apply geq_clear. apply obs_eq_geq. apply obs_eq_refl.
+      - reflexivity.
+      - apply obs_erased_succeed. exact H. }
+    rewrite X. destruct (run_script orc imm f body sched0 cs); cbn [res_map]; try reflexivity;
+      rewrite erase_obs_recs_generic; reflexivity.
+  Qed.
+
+  (* in particular, attaching observers to a successful run cannot make it fail *)
+  Corollary observers_cannot_break : forall f cs tr',
+      detach_ok [] cs ->
+      run_script orc imm f body sched0 (erase_obs_calls cs) = Ok tr' ->
+      exists tr, run_script orc imm f body sched0 cs = Ok tr /\ tr' = erase_obs_recs cs tr.
+  Proof.
+    intros f cs tr' H E. rewrite (observers_do_not_influence_total f cs H) in E.
+    destruct (run_script orc imm f body sched0 cs) as [tr| | |]; cbn [res_map] in E; try discriminate.
+    inv E. eexists; split; reflexivity.
+  Qed.
+
+  Lemma lst_erased_succeed : forall f cs s, erased_succeed orc imm body is_extra_reg f s cs.
+  Proof.
+    intros f cs. induction cs as [|c cs IH]; intro s; [exact I|]. cbn [erased_succeed].
+    destruct (api_call orc imm f body s c) as [[b s']| | |] eqn:E; [apply IH| | |];
+      (destruct c as [|id| |kk [|l]|o|o]; try reflexivity; exfalso; cbn [api_call] in E;
+       destruct (existsb _ (g_ls (clear_log (sc_g s)))); discriminate).
+  Qed.
+
+  (* registrations never fail: the two runs always end alike *)
+  Theorem extra_listeners_do_not_influence_total : forall f cs,
+      run_script orc imm f body sched0 (erase_reg_calls cs)
+      = res_map (erase_reg_recs cs) (run_script orc imm f body sched0 cs).
+  Proof.
+    intros f cs.
+    assert (X : run_script orc imm f body sched0 (erase_reg_calls cs)
+                = res_map (erase_recs keep0 is_extra_reg cs) (run_script orc imm f body sched0 cs)).
+    { apply (erase_sim_total keep0 ls_eq0 eq orc imm body is_extra_reg
+                             (lst_erased_step orc imm body) (lst_kept_step orc imm body)
+                             only_function0 (lst_clean_step orc imm body) f cs sched0 sched0).
+      - split; [reflexivity|]. apply geq_clear. apply lst_eq_geq. apply lst_eq_refl.
+      - cbn. repeat constructor.
+      - apply lst_erased_succeed. }
+    rewrite X. destruct (run_script orc imm f body sched0 cs); cbn [res_map]; try reflexivity;
+      rewrite erase_reg_recs_generic; reflexivity.
+  Qed.
+End Total.
